@@ -10,6 +10,26 @@ from collections import defaultdict
 
 
 # -- C02: GFF3 Parent graph ---------------------------------------------------
+def resolve_ids(nodes, order):
+    """
+    The nodes with the id under which each line is stored when the lines are written in `order` (indices into nodes).
+
+    A line with an ID attribute is stored under that value.  A line without one (node["noid"]) is stored under
+    '<featuretype>_<n>', n = 1, 2, ... counting the id-less lines of that featuretype in file order.  Two byte-identical
+    id-less lines are therefore two stored features with two ids.  Returns `nodes` itself when every line has an ID.
+    """
+    if not any(n.get("noid") for n in nodes):
+        return nodes
+    out = list(nodes)
+    count = {}
+    for i in order:
+        n = nodes[i]
+        if n.get("noid"):
+            count[n["type"]] = count.get(n["type"], 0) + 1
+            out[i] = dict(n, id="%s_%d" % (n["type"], count[n["type"]]))
+    return out
+
+
 def parent_edges(nodes):
     """All (Parent value, id) pairs as written, dangling values included."""
     return {(p, n["id"]) for n in nodes for p in n["parents"]}
